@@ -136,6 +136,24 @@ let eval (w : string array) : float list =
     let rv = if aniso then Some r0v else None in
     let pl = pairlist_build fops r0 rv (z_of_int en) (z_of_int ed) tol cell g1 g2 in
     [cv_coordnum_pl fops pl r0 rv (z_of_int en) (z_of_int ed) tol cell h1 h2]
+  | "rmsdperm" ->
+    (* reference, number of permutations, each as n indices into the group's listing order, group *)
+    let n = ni () in
+    let rf = List.init n (fun _ -> v3 ()) in
+    let np = ni () in
+    let rec nat_of_int k = if k <= 0 then O else S (nat_of_int (k - 1)) in
+    let perms = List.init np (fun _ -> List.init n (fun _ -> nat_of_int (ni ()))) in
+    let g = group () in
+    let q = optimal_q (List.split (fit_pairs fops rf g)) in
+    [cv_rmsd_perm fops q rf perms g]
+  | "fitcart" ->
+    (* cartesian coordinates of a group fitted through fitg: rotate flag, reference, fitting group, group *)
+    let rot = ni () <> 0 in
+    let n = ni () in
+    let rf = List.init n (fun _ -> v3 ()) in
+    let fitg = group () in let g = group () in
+    let q = optimal_q (List.split (fit_pairs fops rf fitg)) in
+    flat_coords (fit_general fops rot q rf fitg g)
   | "distancePairs" -> let g1 = group () in let g2 = group () in cv_distance_pairs fops pbc cell g1 g2
   | "rmsd" | "eigenvector" ->
     let n = ni () in
@@ -209,6 +227,19 @@ let () =
              let (nx, ny) = sq_norms fops l in
              Printf.printf "%s %s %s %s %s %s %s %s %s %s %s\n" (p3 r1) (p3 r2) (p3 r3) (p4 s0) (p4 s1) (p4 s2) (p4 s3)
                (hex (sq_dev fops q l)) (hex nx) (hex ny) (hex (quad_form fops s q))
+           | "SORTMAP" ->
+             (* SORTMAP <n> <ids 0-based in listing order> -> sorted ids | map *)
+             let n = int_of_string w.(1) in
+             let ids = List.init n (fun i -> z_of_int (int_of_string w.(2 + i))) in
+             let rec int_of_nat = function O -> 0 | S m -> 1 + int_of_nat m in
+             Printf.printf "%s | %s\n" (String.concat " " (List.map (fun z -> string_of_int (int_of_z z)) (sorted_ids ids)))
+               (String.concat " " (List.map (fun m -> string_of_int (int_of_nat m)) (sorted_map ids)))
+           | "LOADC" ->
+             (* LOADC <n> <ids> <3n floats: entries in increasing id order> -> entries in listing order *)
+             let n = int_of_string w.(1) in
+             let ids = List.init n (fun i -> z_of_int (int_of_string w.(2 + i))) in
+             let sp = List.init n (fun i -> ((fl w.(2 + n + 3 * i), fl w.(3 + n + 3 * i)), fl w.(4 + n + 3 * i))) in
+             Printf.printf "%s\n" (String.concat " " (List.map p3 (load_coords ((0.0, 0.0), 0.0) ids sp)))
            | "QM" ->
              let q = (((fl w.(1), fl w.(2)), fl w.(3)), fl w.(4)) in
              let ((r1, r2), r3) = rotation_matrix fops q in
